@@ -86,6 +86,19 @@ def CoversE (g : Game P M) (e : TEntry M) (p : P) : Prop :=
 
 def GoodE (g : Game P M) (e : TEntry M) (p : P) : Prop := SoundE g e p ∧ CoversE g e p
 
+/-- an entry that is good for `p` is good for every position with the hash of `p` -/
+theorem GoodE.congr {g : Game P M} (hk : HashOK g) {p q : P} (e : g.hash q = g.hash p) {te : TEntry M}
+    (h : GoodE g te p) : GoodE g te q := by
+  refine ⟨SoundE.congr hk e h.1, ?_, ?_⟩
+  · intro hb hv
+    have h1 := h.2.1 hb hv
+    have h2 := (hk q p e te.depth.toNat).1
+    omega
+  · intro hb hv
+    have h1 := h.2.2 hb hv
+    have h2 := (hk q p e te.depth.toNat).2
+    omega
+
 /-- every entry is sound and covers its depth for every unfinished position that would find it -/
 def TableGood (g : Game P M) (s : Eng M) : Prop :=
   ∀ (i : Nat) (e : TEntry M), s.table[i]? = some e → ∀ p, g.hash p = e.hash → g.over p = false → GoodE g e p
@@ -276,7 +289,7 @@ theorem pvEntry_good {g : Game P M} {p : P} {depth β : Int} {a : PvAcc M} (b0 :
       · intro _ hv; exact hf.noLoss hi hv
 
 /-- the table store at the end of `pvSearch`: the facts about the node are needed only if `ttPut` hands out a slot -/
-theorem pvStore_good {g : Game P M} (hinj : HashInj g) (o : Oracle M) (p : P) (depth β : Int) (a : PvAcc M)
+theorem pvStore_good {g : Game P M} (hinj : HashOK g) (o : Oracle M) (p : P) (depth β : Int) (a : PvAcc M)
     {s : Eng M} (h : TableGood g s)
     (hf : (∃ slot s1, ttPut o s (g.hash p) = .ok (some slot, s1)) → NodeGood g p depth.toNat a.improved a.α β) :
     Sat (pvStore o (g.hash p) depth β a s) (fun x => TableGood g x.2 ∧ x.1.2 = a.α) := by
@@ -302,9 +315,7 @@ theorem pvStore_good {g : Game P M} (hinj : HashInj g) (o : Oracle M) (p : P) (d
         refine TableGood.setEntry hs1' slot _ ?_
         intro q hq _
         dsimp only at hq
-        have : q = p := hinj q p hq
-        subst this
-        exact pvEntry_good b0 hf'
+        exact GoodE.congr hinj hq (pvEntry_good b0 hf')
       · exact Sat.pure ⟨hs1, rfl⟩
     · exact Sat.throw
 
@@ -331,7 +342,7 @@ theorem zwEntry_good {g : Game P M} {p : P} {depth α : Int} {a : ZwAcc M} (b0 :
     · intro _ hv; exact hnw hd hv
     · intro hb; simp only [Facts.upperBound, Facts.lowerBound, Facts.exactBound] at hb; omega
 
-theorem zwStore_good {g : Game P M} (hinj : HashInj g) (o : Oracle M) (p : P) (depth α : Int) (a : ZwAcc M)
+theorem zwStore_good {g : Game P M} (hinj : HashOK g) (o : Oracle M) (p : P) (depth α : Int) (a : ZwAcc M)
     {s : Eng M} (h : TableGood g s)
     (hf : (∃ slot s1, ttPut o s (g.hash p) = .ok (some slot, s1)) →
       (a.didCut = true → α > W → Win g p) ∧ (a.didCut = true → -W ≤ α → -W ≤ negamax g depth.toNat p) ∧
@@ -359,9 +370,7 @@ theorem zwStore_good {g : Game P M} (hinj : HashInj g) (o : Oracle M) (p : P) (d
       refine TableGood.setEntry hs1' slot _ ?_
       intro q hq _
       dsimp only at hq
-      have : q = p := hinj q p hq
-      subst this
-      exact zwEntry_good (g := g) (p := q) (depth := depth) (α := α) (a := a) _ f1 f2 f3 f4
+      exact GoodE.congr hinj hq (zwEntry_good (g := g) (p := p) (depth := depth) (α := α) (a := a) _ f1 f2 f3 f4)
     · exact Sat.throw
 
 /-- a new engine's table (all entries zero: value 0, lower bound, depth 0) is good -/
